@@ -42,7 +42,7 @@ def c02_jobs(tier):
     for n in range(1, 9):
         for bit in (0, 1):
             jobs.append(J('root', 'H_C02_runs_const', [n, bit]))
-    for n in ((100, 101, 128) if q else (100, 101, 102, 103, 110, 128, 160, 165, 321)):
+    for n in ((100, 101, 128, 160) if q else (100, 101, 102, 103, 110, 128, 159, 160, 161, 165, 320, 321, 322)):
         jobs.append(J('root', 'H_C02_runsdist', [n], timeout_ms=120000))
     for n in ((128, 131, 136) if q else (128, 129, 130, 131, 135, 136, 137, 144)):
         for one in (1, 0):
@@ -474,8 +474,8 @@ PROPS = {
     },
     'C02': {
         'jobs': c02_jobs,
-        'bounds': {'quick': 'runs 2<=n<=32 (+ constant sequences n<=8 concretely); runs distribution n in {100,101,128}; longest run n in {128,131,136} x {ones,zeros}; regime selection all int64 n; class-probability tables vs exact recurrence',
-                   'thorough': 'runs n<=64; runs distribution n in {100..103,110,128,160,165,321}; longest run n in {128..131,135,136,137,144}'},
+        'bounds': {'quick': 'runs 2<=n<=32 (+ constant sequences n<=8 concretely); runs distribution n in {100,101,128,160} (cut-off k=2 and the first length with k=3); longest run n in {128,131,136} x {ones,zeros}; regime selection all int64 n; class-probability tables vs exact recurrence',
+                   'thorough': 'runs n<=64; runs distribution n in {100..103,110,128,159..161,165,320..322} (both sides of the k=2/3 and k=3/4 cut-off boundaries); longest run n in {128..131,135,136,137,144}'},
         'outside': 'regimes m=128 (n>=6272) and m=10000 of the longest-run test are covered only through regime selection, the table check and the shared code path; lengths above the bounds; binary64 rounding; igamc/erfc accuracy',
         'assumptions': ['float64 tails as exact reals; erfc/igamc uninterpreted', 'runs test: the slice pi(1-pi)=0 (constant sequences) is excluded from the symbolic query and checked concretely for n<=8', 'longest-run class probabilities: reference values from an exact big-integer recurrence computed by the checker (trusted computation)'],
     },
